@@ -1,10 +1,12 @@
 import BtcwVerif.Lemmas.AddrRows
+import BtcwVerif.Model.AddrTx
 /-!
 # C04 — no secret reaches the database file unencrypted
 
 `run cfg hd ops` is the state reached by the history `ops` together with *every* row any operation handed to the
-database (committed or not).  `cfg` lists the tree-dependent quirks; the fixed tree is `{}` (all `false`), the
-official tree at the time of writing is `{ o1 := true, t1 := true, l1 := true }` (see notes/C04.md).
+database (committed or not).  All theorems are about the official tree (`Cfg.fixed`: every defect of DESIGN §7 that touched this
+property — O1 zero script key, secret taproot rows surviving conversion — is fixed by b81a3ff); the configurations
+with a defect switched back on appear only in the counter-example theorems at the end.
 -/
 set_option linter.unusedSectionVars false
 namespace AddrDerive
@@ -12,29 +14,161 @@ open AddrSym
 
 variable {K P : Type} [DecidableEq K] [DecidableEq P]
 
-/-- No write of any history exposes a secret (extended private keys, address / imported private keys, secret
-    scripts, crypto keys) outside a sealed box — provided the script crypto key is a real key (`o1 = false`). -/
-theorem C04_no_plain_secret (cfg : Cfg) (hd : HD K P) (ops : List (Op K P)) (h : cfg.o1 = false) :
-    ∀ w ∈ (run cfg hd ops).2, w.exposesSecret = false :=
-  fun w hw => ((run_good cfg hd ops w hw).2 h).1
+/-- **No secret in the clear.**  No write of any history exposes a secret (extended private keys, address /
+    imported private keys, secret scripts, crypto keys) outside a box sealed under a real key. -/
+theorem C04_no_plain_secret (hd : HD K P) (ops : List (Op K P)) :
+    ∀ w ∈ (run Cfg.fixed hd ops).2, w.exposesSecret = false :=
+  fun w hw => ((run_good Cfg.fixed hd ops w hw).2 rfl).1
 
-/-- No write of any history shows public key material (xpubs, public keys, address ids, public scripts) in the
-    clear: it only occurs sealed or under `sha256`.  Holds for every configuration. -/
-theorem C04_no_plain_public (cfg : Cfg) (hd : HD K P) (ops : List (Op K P)) :
+/-- **No public key material in the clear** (address-manager namespace): xpubs, public keys, address ids and
+    public scripts only occur sealed or under `sha256`. -/
+theorem C04_no_plain_public (hd : HD K P) (ops : List (Op K P)) :
+    ∀ w ∈ (run Cfg.fixed hd ops).2, w.exposesPublic = false :=
+  fun w hw => (run_good Cfg.fixed hd ops w hw).1
+
+/-- **Right key class.**  Private material is sealed only under private-class keys (`priv`/`script` crypto keys,
+    private master key), never under the public crypto key, the public master key or the all-zero key. -/
+theorem C04_right_key_class (hd : HD K P) (ops : List (Op K P)) :
+    ∀ w ∈ (run Cfg.fixed hd ops).2, w.rightClass = true :=
+  fun w hw => ((run_good Cfg.fixed hd ops w hw).2 rfl).2
+
+/-- the public clause does not depend on any of the (fixed) defects: it holds for every configuration -/
+theorem no_plain_public_any_cfg (cfg : Cfg) (hd : HD K P) (ops : List (Op K P)) :
     ∀ w ∈ (run cfg hd ops).2, w.exposesPublic = false :=
   fun w hw => (run_good cfg hd ops w hw).1
 
-/-- Private material is sealed only under private-class keys (`priv`/`script` crypto keys, private master key),
-    never under the public crypto key or the public master key. -/
-theorem C04_right_key_class (cfg : Cfg) (hd : HD K P) (ops : List (Op K P)) (h : cfg.o1 = false) :
-    ∀ w ∈ (run cfg hd ops).2, w.rightClass = true :=
-  fun w hw => ((run_good cfg hd ops w hw).2 h).2
+-- ---------------------------------------------------------------------------------------------------------
+-- the boundary of the public clause: the whole database file, `waddrmgr` next to `wtxmgr`
 
-/-- Part of `C04_no_plain_secret` that holds on the official tree as well (script key = all-zero key): every
-    write that is not an address row of a secret script is free of exposed secrets.  Missing: secret scripts. -/
-theorem C04_no_plain_secret_partial (cfg : Cfg) (hd : HD K P) (ops : List (Op K P)) :
-    ∀ w ∈ (run cfg hd ops).2, w.exposesPublic = false ∧ (cfg.o1 = false → w.exposesSecret = false) :=
-  fun w hw => ⟨(run_good cfg hd ops w hw).1, fun h => ((run_good cfg hd ops w hw).2 h).1⟩
+theorem wstep_mgr_good (cfg : Cfg) (hd : HD K P) (s : State K P) (op : WOp K P) :
+    ∀ w ∈ (wstep cfg hd s op).2.2, (w.1 = Ns.waddrmgr → Good cfg.o1 w.2) ∧
+      (w.1 = Ns.wtxmgr → op.isTx = true ∧ w.2.exposesSecret = false) := by
+  intro w hw
+  cases op with
+  | mgr op =>
+    simp only [wstep, List.mem_map] at hw
+    obtain ⟨r, hr, rfl⟩ := hw
+    exact ⟨fun _ => step_good cfg hd s op r hr, fun h => (by cases h)⟩
+  | recordTx desc =>
+    simp only [wstep] at hw
+    split at hw
+    · cases hw
+    · simp only [List.mem_map] at hw
+      obtain ⟨r, hr, rfl⟩ := hw
+      refine ⟨fun h => (by cases h), fun _ => ⟨rfl, ?_⟩⟩
+      simp only [txRows, List.mem_cons, List.mem_nil_iff, or_false] at hr
+      rcases hr with rfl | rfl <;> simp [Row.exposesSecret, exposesSecret]
+
+theorem wfoldl_good (cfg : Cfg) (hd : HD K P) (ops : List (WOp K P)) :
+    ∀ (acc : State K P × List NsRow),
+      (∀ w ∈ acc.2, (w.1 = Ns.waddrmgr → Good cfg.o1 w.2) ∧ (w.1 = Ns.wtxmgr → w.2.exposesSecret = false)) →
+      ∀ w ∈ (ops.foldl (fun acc op => let r := wstep cfg hd acc.1 op; (r.1, acc.2 ++ r.2.2)) acc).2,
+        (w.1 = Ns.waddrmgr → Good cfg.o1 w.2) ∧ (w.1 = Ns.wtxmgr → w.2.exposesSecret = false) := by
+  induction ops with
+  | nil => intro acc h w hw; exact h w hw
+  | cons op rest ih =>
+    intro acc h
+    simp only [List.foldl_cons]
+    apply ih
+    intro w hw
+    rcases List.mem_append.mp hw with hw | hw
+    · exact h w hw
+    · have := wstep_mgr_good cfg hd acc.1 op w hw
+      exact ⟨this.1, fun e => (this.2 e).2⟩
+
+/-- **The address-manager namespace never shows public key material (nor a secret), transactions or not.**
+    In every history of the whole wallet database — address-manager operations interleaved in any way with
+    recorded transactions — every write below the `waddrmgr` namespace is free of clear-text public key material
+    (xpubs, public keys, address ids / hashes, public scripts), free of exposed secrets, and seals private material
+    under the right key class.  Recording transactions changes nothing for this namespace. -/
+theorem C04_waddrmgr_never_public (hd : HD K P) (ops : List (WOp K P)) :
+    ∀ w ∈ (wrun Cfg.fixed hd ops).2, w.1 = Ns.waddrmgr →
+      w.2.exposesPublic = false ∧ w.2.exposesSecret = false ∧ w.2.rightClass = true := by
+  intro w hw hns
+  have := (wfoldl_good Cfg.fixed hd ops (emptyState, []) (by intro w hw; cases hw) w hw).1 hns
+  exact ⟨this.1, (this.2 rfl).1, (this.2 rfl).2⟩
+
+/-- the transaction store never holds a secret either -/
+theorem C04_wtxmgr_no_secret (hd : HD K P) (ops : List (WOp K P)) :
+    ∀ w ∈ (wrun Cfg.fixed hd ops).2, w.2.exposesSecret = false := by
+  intro w hw
+  have := wfoldl_good Cfg.fixed hd ops (emptyState, []) (by intro w hw; cases hw) w hw
+  cases hns : w.1 with
+  | waddrmgr => exact ((this.1 hns).2 rfl).1
+  | wtxmgr => exact this.2 hns
+
+theorem wfoldl_no_tx (cfg : Cfg) (hd : HD K P) (ops : List (WOp K P)) (hno : ops.all (fun op => !op.isTx) = true) :
+    ∀ (acc : State K P × List NsRow), (∀ w ∈ acc.2, w.1 = Ns.waddrmgr) →
+      ∀ w ∈ (ops.foldl (fun acc op => let r := wstep cfg hd acc.1 op; (r.1, acc.2 ++ r.2.2)) acc).2, w.1 = Ns.waddrmgr := by
+  induction ops with
+  | nil => intro acc h w hw; exact h w hw
+  | cons op rest ih =>
+    intro acc h
+    simp only [List.all_cons, Bool.and_eq_true] at hno
+    simp only [List.foldl_cons]
+    apply ih hno.2
+    intro w hw
+    rcases List.mem_append.mp hw with hw | hw
+    · exact h w hw
+    · cases op with
+      | mgr op =>
+        simp only [wstep, List.mem_map] at hw
+        obtain ⟨r, _, rfl⟩ := hw
+        rfl
+      | recordTx d => simp [WOp.isTx] at hno
+
+/-- **Until a transaction is recorded, nothing public is in the file at all; afterwards only the transaction store
+    holds it.**  (i) While no transaction has been recorded, no write to the database file, in whichever
+    top-level bucket, shows public key material in the clear.  (ii) In any history, a write that shows public key
+    material lies in the `wtxmgr` namespace. -/
+theorem C04_public_boundary (hd : HD K P) (ops : List (WOp K P)) :
+    (ops.all (fun op => !op.isTx) = true → ∀ w ∈ (wrun Cfg.fixed hd ops).2, w.2.exposesPublic = false) ∧
+    (∀ w ∈ (wrun Cfg.fixed hd ops).2, w.2.exposesPublic = true → w.1 = Ns.wtxmgr) := by
+  constructor
+  · intro hno w hw
+    have hns := wfoldl_no_tx Cfg.fixed hd ops hno (emptyState, []) (by intro w hw; cases hw) w hw
+    exact (C04_waddrmgr_never_public hd ops w hw hns).1
+  · intro w hw hp
+    cases hns : w.1 with
+    | wtxmgr => rfl
+    | waddrmgr =>
+      have := (C04_waddrmgr_never_public hd ops w hw hns).1
+      rw [this] at hp; cases hp
+
+/-- the address-manager part of a whole-database history is a history of the address manager: projecting away the
+    recorded transactions gives the same manager state and the same `waddrmgr` writes (so every `C03_*` / `C04_*`
+    theorem about `run` applies to the manager inside the full wallet) -/
+def mgrOps : List (WOp K P) → List (Op K P)
+  | [] => []
+  | .mgr op :: t => op :: mgrOps t
+  | .recordTx _ :: t => mgrOps t
+
+theorem wfoldl_state (cfg : Cfg) (hd : HD K P) : ∀ (ops : List (WOp K P)) (s : State K P) (r : List NsRow) (r' : List Row),
+    (ops.foldl (fun acc op => let x := wstep cfg hd acc.1 op; (x.1, acc.2 ++ x.2.2)) (s, r)).1 =
+    ((mgrOps ops).foldl (fun acc op => let x := step cfg hd acc.1 op; (x.1, acc.2 ++ x.2.2)) (s, r')).1 := by
+  intro ops
+  induction ops with
+  | nil => intro s r r'; rfl
+  | cons op t ih =>
+    intro s r r'
+    cases op with
+    | mgr op => simp only [List.foldl_cons, mgrOps, wstep]; exact ih _ _ _
+    | recordTx d =>
+      simp only [List.foldl_cons, mgrOps]
+      have : (wstep cfg hd s (WOp.recordTx d)).1 = s := by simp only [wstep]; split <;> rfl
+      rw [this]; exact ih _ _ _
+
+/-- the manager state inside the whole-database history is the state of the projected manager history -/
+theorem C04_wrun_mgr_state (hd : HD K P) (ops : List (WOp K P)) :
+    (wrun Cfg.fixed hd ops).1 = (run Cfg.fixed hd (mgrOps ops)).1 := by
+  unfold wrun run
+  cases hm : mgrOps ops with
+  | nil =>
+    have := wfoldl_state Cfg.fixed hd ops emptyState [] []
+    rw [hm] at this; exact this
+  | cons op t =>
+    have := wfoldl_state Cfg.fixed hd ops emptyState [] []
+    rw [hm] at this; exact this
 
 -- ---------------------------------------------------------------------------------------------------------
 -- watching-only conversion
@@ -76,10 +210,10 @@ theorem stripScope_privless (cfg : Cfg) (ht : cfg.t1 = false) (sc : Scope) (sd :
 /-- **Watching-only conversion.**  After `ConvertToWatchingOnly` (from any state of a non-watch-only manager)
     and a restart:
     * no passphrase unlocks the manager, and no `PrivKey()` / secret `Script()` call returns anything;
-    * the database holds no private key of any kind and no secret script (given `t1 = false`, i.e. the
-      taproot rows are stripped too) and no private master / crypto key parameters;
+    * the database holds no private key of any kind, no secret script (taproot ones included) and no private
+      master / crypto key parameters;
     * every address row that existed before still exists (same ids in every scope). -/
-theorem C04_watch_only (cfg : Cfg) (hd : HD K P) (s : State K P) (hw : s.mem.watchOnly = false) (ht : cfg.t1 = false) :
+theorem watch_only_cfg (cfg : Cfg) (hd : HD K P) (s : State K P) (hw : s.mem.watchOnly = false) (ht : cfg.t1 = false) :
     let s1 := (opConvertWO cfg s).1
     let s2 := (opRestart (K := K) s1).1
     (∀ p, (opUnlock cfg hd s2 p).2.1 = .err .watchOnly) ∧
@@ -105,6 +239,20 @@ theorem C04_watch_only (cfg : Cfg) (hd : HD K P) (s : State K P) (hw : s.mem.wat
     exact stripScope_privless cfg ht (a, b) w
   · simp [opRestart, opConvertWO, hw, stripScope, List.map_map, Function.comp_def]
 
+/-- **Watching-only conversion** on the official tree, after any history: see `watch_only_cfg` for the clauses
+    (nothing unlocks, no private accessor answers, nothing private left in the database — secret taproot
+    scripts included —, every address row still there). -/
+theorem C04_watch_only (hd : HD K P) (ops : List (Op K P)) (hw : (run Cfg.fixed hd ops).1.mem.watchOnly = false) :
+    let s := (run Cfg.fixed hd ops).1
+    let s2 := (opRestart (K := K) (opConvertWO Cfg.fixed s).1).1
+    (∀ p, (opUnlock Cfg.fixed hd s2 p).2.1 = .err .watchOnly) ∧
+    (∀ o : KeyObj K P, privKeyOf s2 o = .error .watchOnly) ∧
+    (∀ o : ScrObj, (o.kind = 0 ∨ o.secret = true) → scriptOf Cfg.fixed s2 o = .error .watchOnly) ∧
+    s2.disk.watchOnly = true ∧ s2.disk.rootPriv = none ∧ s2.disk.privPass = none ∧
+    (∀ e ∈ s2.disk.scopes, ScopePrivless e.2) ∧
+    (s2.disk.scopes.map fun e => (e.1, e.2.addrs.map (·.1))) = (s.disk.scopes.map fun e => (e.1, e.2.addrs.map (·.1))) :=
+  watch_only_cfg Cfg.fixed hd _ hw rfl
+
 -- ---------------------------------------------------------------------------------------------------------
 -- counter-examples on the configurations with the defects, and non-vacuity
 
@@ -115,7 +263,7 @@ def demoHD04 : HD (List Nat) (List Nat) :=
 def demo04ImportScript : List (Op (List Nat) (List Nat)) :=
   [.create [0], .unlock 0, .importScript (84, 0) 1 0 true 1]
 
-/-- **Defect O1 (official tree).**  With the script crypto key left all-zero, importing a secret script after
+/-- **Defect O1 (what reverting b81a3ff breaks).**  With the script crypto key left all-zero, importing a secret script after
     unlocking writes a row from which the script can be read without any passphrase. -/
 theorem C04_zero_key_counterexample :
     ((run { o1 := true } demoHD04 demo04ImportScript).2.any Row.exposesSecret) = true := by decide
@@ -126,7 +274,8 @@ example : ((run {} demoHD04 demo04ImportScript).2.any Row.exposesSecret) = false
 def demo04Taproot : List (Op (List Nat) (List Nat)) :=
   [.create [0], .unlock 0, .importScript (86, 0) 1 2 true 1, .convertWO, .restart]
 
-/-- **Defect (official tree): secret taproot script rows survive `ConvertToWatchingOnly`.** -/
+/-- **Defect (what reverting b81a3ff's `deletePrivateKeys` part breaks): secret taproot script rows survive
+    `ConvertToWatchingOnly`.** -/
 theorem C04_taproot_row_counterexample :
     ((run { t1 := true } demoHD04 demo04Taproot).1.disk.scopes.any fun e =>
       e.2.addrs.any fun a => match a.2 with | .scr _ _ true (some _) => true | _ => false) = true := by decide
@@ -135,8 +284,14 @@ example : ((run {} demoHD04 demo04Taproot).1.disk.scopes.any fun e =>
       e.2.addrs.any fun a => match a.2 with | .scr _ _ true (some _) => true | _ => false) = false := by decide
 
 /-- non-vacuity of `C04_watch_only`: a reachable unlocked state with imported key, script and issued addresses -/
-example : (run {} demoHD04 [.create [0], .unlock 0, .next (84, 0) 0 2 false 1, .importPriv (84, 0) 7 true 5,
+example : (run Cfg.fixed demoHD04 [.create [0], .unlock 0, .next (84, 0) 0 2 false 1, .importPriv (84, 0) 7 true 5,
     .importScript (84, 0) 1 1 true 6]).1.mem.watchOnly = false := by decide
+
+/-- non-vacuity of the boundary: after a recorded transaction the file does hold an address hash in the clear — in
+    the `wtxmgr` namespace — and the address manager's own rows (issue, mark used) still show none -/
+example : ((wrun Cfg.fixed demoHD04 [.mgr (.create [0]), .mgr (.next (84, 0) 0 1 false 1), .recordTx "84:0:0:0:0",
+      .mgr (.markUsed (84, 0) (.key (.hd [0, 84 + H, 0 + H, 0 + H, 0, 0]) 0 true) "84:0:0:0:0")]).2.any
+      fun w => w.1 == Ns.wtxmgr && w.2.exposesPublic) = true := by decide
 
 /-- the write stream of a history is not empty (the theorems above are not about an empty list) -/
 example : 20 < (run {} demoHD04 demo04ImportScript).2.length := by decide
